@@ -58,6 +58,41 @@ Theorem C07_client_loop_is_model : forall max reads cur out, Forall read_ok read
   (out ++ fst (recv_loop max cur (map chunk_of reads)), snd (recv_loop max cur (map chunk_of reads))).
 Proof. exact RecvEquiv.cli_recv_is_recv_loop. Qed.
 
+(* ---- read EVENTS: data, read timeout, end of stream, other errors; shutdown flag and idle state on the server ----
+   Frame/RecvEvents.v extends recv_loop from chunks to events; Xlate/RecvEventsEquiv.v ties it to the CURRENT source: the
+   statement `if err != nil {..}` after conn.Read of both loops is regenerated on every run (tr_srv_recv_event,
+   tr_cli_recv_event) and, followed by the package-cutting statements when the read brought data, run over ANY list of
+   events it delivers exactly the model's packages, keeps the model's bytes and leaves the loop exactly when the model
+   does; a read timeout never changes the buffered bytes. *)
+From TarsV Require Import Frame.RecvEvents Xlate.RecvEventsEquiv.
+Theorem C07_server_events_is_model : forall max evs cur out, Forall gev_ok evs ->
+  run_events srv_evstep tr_srv_recv_chunk max cur evs out =
+  (out ++ fst (srv_events max cur (map sev_of evs)), stat_of (snd (srv_events max cur (map sev_of evs)))).
+Proof. exact RecvEventsEquiv.srv_events_is_model. Qed.
+Theorem C07_client_events_is_model : forall max evs cur out, Forall gev_ok evs ->
+  run_events cli_evstep tr_cli_recv_chunk max cur evs out =
+  (out ++ fst (cli_events max cur (map rev_of evs)), stat_of (snd (cli_events max cur (map rev_of evs)))).
+Proof. exact RecvEventsEquiv.cli_events_is_model. Qed.
+(* the chunk model is the event model without failed reads *)
+Theorem C07_events_extend_chunks : forall max chunks cur,
+  cli_events max cur (map EData chunks) = recv_loop max cur chunks /\
+  forall f g, srv_events max cur (map (fun c => {| s_ev := EData c; s_closing := f c; s_idle := g c |}) chunks) = recv_loop max cur chunks.
+Proof. intros max chunks cur. split; [apply cli_events_data|intros; apply srv_events_data]. Qed.
+(* read timeouts: invisible to the client; on the server the loop goes on with exactly the bytes it held, or is left - and
+   it is left only with an empty buffer (shutting down or idle); a partial package survives any number of timeouts *)
+Theorem C07_client_timeouts_invisible : forall max evs cur,
+  cli_events max cur evs = cli_events max cur (filter (fun e => negb (is_timeout e)) evs).
+Proof. exact RecvEvents.cli_timeouts_invisible. Qed.
+Theorem C07_client_timeout_keeps_buffer : forall cur eof operr,
+  tr_cli_recv_event cur true eof operr true = Return (inl (inr cur)).
+Proof. exact RecvEventsEquiv.cli_timeout_keeps_buffer. Qed.
+Theorem C07_server_timeout_keeps_buffer : forall cur e, g_err e = true -> g_nodata e = true ->
+  srv_evstep e cur = Return (inl (inr cur)) \/ (srv_evstep e cur = Return (inr tt) /\ cur = []%list).
+Proof. intros cur e He Hn. unfold srv_evstep. rewrite He. exact (RecvEventsEquiv.srv_timeout_keeps_buffer cur e He Hn). Qed.
+Theorem C07_server_partial_survives_timeouts : forall max cur es es', cur <> []%list ->
+  Forall (fun e => s_ev e = ETimeout) es -> srv_events max cur (es ++ es') = srv_events max cur es'.
+Proof. exact RecvEvents.srv_partial_survives_timeouts. Qed.
+
 Print Assumptions C07_reassembly.
 Print Assumptions C07_partial.
 Print Assumptions C07_error.
@@ -67,3 +102,10 @@ Print Assumptions C07_max_plus_one_rejected.
 Print Assumptions C07_short_length_rejected.
 Print Assumptions C07_server_loop_is_model.
 Print Assumptions C07_client_loop_is_model.
+Print Assumptions C07_server_events_is_model.
+Print Assumptions C07_client_events_is_model.
+Print Assumptions C07_events_extend_chunks.
+Print Assumptions C07_client_timeouts_invisible.
+Print Assumptions C07_client_timeout_keeps_buffer.
+Print Assumptions C07_server_timeout_keeps_buffer.
+Print Assumptions C07_server_partial_survives_timeouts.
